@@ -7,6 +7,7 @@ package main
 // simulated chain, and the callbacks the watcher issued, step by step.
 
 import (
+	"sync/atomic"
 	"context"
 	"crypto/sha256"
 	"errors"
@@ -824,11 +825,11 @@ func genRpcCsv(r *Rng) *rpcCsvCase {
 func runRpcCsv(c *rpcCsvCase) error {
 	f := &fakeChainRpc{v: &rpcView{}}
 	w := txwatcher.NewBlockchainRpcTxWatcher(context.Background(), f, 3)
-	ncb := 0
-	var fails bool
+	var ncb int32
+	var fails int32
 	w.AddCsvCallback(func(swapId string) error {
-		ncb++
-		if fails {
+		atomic.AddInt32(&ncb, 1)
+		if atomic.LoadInt32(&fails) == 1 {
 			return errors.New("swap service refused")
 		}
 		return nil
@@ -837,10 +838,25 @@ func runRpcCsv(c *rpcCsvCase) error {
 		f.mu.Lock()
 		f.v = &rpcView{TxoKind: op.Txo, Best: 1, Conf: op.Conf}
 		f.mu.Unlock()
-		fails = op.CbFails
-		ncb = 0
+		atomic.StoreInt32(&fails, 0)
+		if op.CbFails {
+			atomic.StoreInt32(&fails, 1)
+		}
+		atomic.StoreInt32(&ncb, 0)
 		if i == 0 {
 			w.AddWaitForCsvTx("swap", "txid", 0, 100, c.Csv, nil)
+			// the callback of an already matured transaction runs in its own goroutine: wait for it (and for the
+			// removal from the watch list that follows a successful callback) before observing
+			if op.Txo == 2 && op.Conf >= c.Csv {
+				deadline := time.Now().Add(10 * time.Second)
+				for time.Now().Before(deadline) {
+					if atomic.LoadInt32(&ncb) >= 1 && (op.CbFails || !w.VerifCsvWatched("swap")) {
+						break
+					}
+					time.Sleep(time.Millisecond)
+				}
+			}
+			time.Sleep(2 * time.Millisecond)
 		} else {
 			if err := w.HandleCsvTx(uint64(100 + i)); err != nil {
 				return err
@@ -850,7 +866,7 @@ func runRpcCsv(c *rpcCsvCase) error {
 		if w.VerifCsvWatched("swap") {
 			watched = 1
 		}
-		c.Obs = append(c.Obs, [2]int{ncb, watched})
+		c.Obs = append(c.Obs, [2]int{int(atomic.LoadInt32(&ncb)), watched})
 	}
 	return nil
 }
